@@ -28,7 +28,7 @@ func runC11(c *Ctx) {
 	c.Rule("C11.R1", "BITS", "index pack/unpack round trip and injectivity on all int32 pairs", 3)
 	c.Rule("C11.R2", "LIN/WIRE", "position accounting of the rule scanner", 2)
 	c.Rule("C11.R3", "WIRE", "same list id and same parser in scanner and retrievers", 6)
-	c.Rule("C11.R4", "LIN/WIRE", "retrieval cut: string slice to the next newline; file seek from start; line reader's found test", 4)
+	c.Rule("C11.R4", "LIN/WIRE", "retrieval cut: string slice to the next newline; file seek from start before every read; line reader's found test", 5)
 	c.Rule("C11.R5", "WIRE", "storage: duplicate ids rejected, list chosen by the unpacked id, storage scanner visits every list", 4)
 
 	a := &anchors{c: c, rule: "C11.R1"}
@@ -333,6 +333,40 @@ func runC11(c *Ctx) {
 			}
 		}
 		c.Check(bad == "", "C11.R4", "FileRuleList.RetrieveRule: Seek(int64(idx), io.SeekStart)", frl.Pos(), "absolute seek to the reported offset", bad)
+		// every read of the file in the retriever happens after that seek, on every path
+		{
+			u := g.U
+			var seekCond Ref = False
+			for _, ef := range s.Effects {
+				if ef.Kind == "call" && strings.HasSuffix(ef.Call.Aux, "os.File).Seek") {
+					seekCond = u.bdd.Or(seekCond, ef.Cond)
+				}
+			}
+			badr := ""
+			nr := 0
+			for _, ef := range s.Effects {
+				if ef.Kind != "call" || strings.HasSuffix(ef.Call.Aux, "os.File).Seek") {
+					continue
+				}
+				usesFile := false
+				for _, a := range ef.Call.Args {
+					if a != nil && u.Mentions(a, func(x *E) bool { return x.Op == "field" && x.Aux == "File" && len(x.Args) > 0 && x.Args[0] == ps[0] }) {
+						usesFile = true
+					}
+				}
+				if !usesFile {
+					continue
+				}
+				nr++
+				if !u.bdd.Implies(ef.Cond, seekCond) && badr == "" {
+					badr = c.P.Pos(ef.Pos) + ": " + clip(ef.Call.Aux, 60) + " reads the file on a path without the seek (when " + clip(u.ShowBool(u.bdd.And(ef.Cond, u.bdd.Not(seekCond))), 160) + "): the position is wherever the previous reader of the shared file left it, not the rule index"
+				}
+			}
+			if nr == 0 && badr == "" {
+				badr = "UNDECIDED: no call that reads the list's file found in the retriever"
+			}
+			c.Check(badr == "", "C11.R4", "FileRuleList.RetrieveRule: the file is read only after the seek", frl.Pos(), fmt.Sprintf("%d call(s) using the file: reach condition implies the seek's", nr), badr)
+		}
 		if ns := c.P.Method("filterlist", "FileRuleList", "NewScanner"); ns != nil {
 			s2 := g.Eval(ns)
 			ok := false
